@@ -193,6 +193,15 @@ impl Campaign for C19 {
         script.resolve.insert(symbol_value("x1"), Answer::Provide(Val::External(rng.below(3))));
         script.apply_default = Some(if rng.chance(1, 2) { Answer::Unique } else { Answer::Provide(random_value(rng, 1)) });
         script.defer_default = Some(if rng.chance(1, 4) { Answer::Unique } else { Answer::Decline });
+        if rng.chance(1, 8) {
+            // the host compacts the store inside its deferred-operation / external-apply callback, then answers
+            let d = script.defer_default.clone().unwrap();
+            script.defer_default = Some(Answer::Compact(Box::new(d)));
+            if rng.chance(1, 2) {
+                let ap = script.apply_default.clone().unwrap_or(Answer::Decline);
+                script.apply_default = Some(Answer::Compact(Box::new(ap)));
+            }
+        }
 
         // schedule
         let cadence = rng.below(20);
@@ -530,6 +539,8 @@ pub fn execute(sc: &Sc19) -> Outcome {
         }
     };
     let mut b = BasicW::create(Host::new(sc.script.clone()), &Knobs::default()).expect("default world");
+    // the reference world is the one in which nothing happens: its host never compacts inside a callback either
+    b.host_mut().compacts_in_callbacks = false;
     // builds happen with the host silent
     a.host_mut().recording = false;
     b.host_mut().recording = false;
@@ -985,8 +996,18 @@ pub fn execute(sc: &Sc19) -> Outcome {
         // ---- one step in both worlds
         let ia = current_instruction(&a).map(|(i, _)| i);
         let ib = current_instruction(&b).map(|(i, _)| i);
+        let compacted_before = a.host().fired_compact_in_callback;
         let ra = step(&mut a);
         let rb = step(&mut b);
+        if a.host().fired_compact_in_callback != compacted_before {
+            // the host compacted inside a callback of this step without naming roots: it keeps only what lies in the
+            // retained prefix, and the data lengths it noted earlier mean nothing any more
+            let retention = a.data_retention_count();
+            held.retain(|(addr, _)| *addr < retention);
+            marks.clear();
+            out.count("f8_compactions_inside_a_callback", 1);
+            out.probe("compaction-inside-a-callback");
+        }
         steps += 1;
         k += 1;
         sh.str("s");
